@@ -337,6 +337,8 @@ def eval_monad_reverse(a, backend):
                 return np_mod.flip(a, dims=[0])  # torch style
             except TypeError:
                 return np_mod.flip(a, axis=0)  # numpy style
+    if not is_iterable(a):
+        return a
     return a[::-1]
 
 
